@@ -4,7 +4,8 @@ W2   who may write the row-list state of DetailedPlacement
 G3   place / insert / swap mutate only after their feasibility predicate said yes (throwing guard)
 G4   only non-ignored cells that passed the three row-bound checks enter a row list
 MV   optimiser moves are issued only for candidates whose evaluation reported feasibility
-R1   the state shown to the user callback is exported first
+R1   the state shown to the user callback is exported first, and the export writes back every cell
+SH   cells are optimised as single-row cells exactly when their placed height equals the row height
 QF   the detailed-placement model is built from placed geometry only (no raw sizes next to placed coordinates)
 SO   obstacle lists given to computeRows never contain a fixed cell (fixed obstructions are already removed; fixed
      non-obstructions must not be removed)
@@ -44,7 +45,8 @@ def run(ctx, rep, tier):
     rep.rule("G3", "place/insert/swap mutate only after canPlace/canInsert/canSwap (throwing guard)", 3)
     rep.rule("G4", "constructor admits a cell to a row list only if not ignored and inside the row", 1)
     rep.rule("MV", "doSwap/doInsert only for candidates reported feasible", 3)
-    rep.rule("R1", "exported state precedes the user callback", 1)
+    rep.rule("R1", "exported state precedes the user callback and is complete", 2)
+    rep.rule("SH", "single-row classification is an exact equality of placed height and row height", 2)
     rep.rule("QF", "detailed-placement model built from placed geometry only", 2)
     rep.rule("SO", "no fixed cell in the obstacle lists of the builders", 2)
     rep.rule("SA", "admission predicates honour row polarity", 5)
@@ -137,6 +139,49 @@ def run(ctx, rep, tier):
         rep.holds("R1", user[0], cb, "exportPlacement(circuit_) dominates the user callback")
     else:
         rep.violation("R1", user[0], cb, "user callback runs before / without exporting the current placement", "", key="DetailedPlacer::callback|no export before callback")
+    # ---- R1b: the exported state is complete ----
+    from .common import for_loop_info, loop_has_early_exit
+    for f in prog.funcs.values():
+        if f.cls not in (CQ + "DetailedPlacer", CQ + "DetailedPlacement"):
+            continue
+        ws = eff.summary(f)["writes"].get(CQ + "Circuit::cellX_", [])
+        for x, u in ws:
+            lp = u.node
+            while lp is not None and lp.get("kind") not in ("ForStmt", "CXXForRangeStmt", "WhileStmt", "DoStmt"):
+                lp = lp.get("_p")
+            li = for_loop_info(lp) if lp is not None and lp.get("kind") == "ForStmt" else None
+            full = li is not None and li["lo"] == ("lit", "0") and li["step"] == 1 and li["hi"] is not None and li["hi"][0] == "call" and \
+                li["hi"][1].endswith("::nbCells") and loop_has_early_exit(li["body"]) is None
+            if full:
+                rep.holds("R1", u.node, f, "%s writes back every cell of the model (full-range loop)" % f.short)
+            else:
+                rep.violation("R1", u.node, f, "%s does not write back every cell" % f.short,
+                              "the state exposed to the callback / returned can mix stale and current positions (overlaps, though the internal state is legal)",
+                              key="%s|partial export" % f.short)
+    # ---- SH: single-row classification is an exact height equality ----
+    for f in list(prog.func(CQ + "DetailedPlacement::fromIspdCircuit")):
+        pushes = [x for x in walk(f.body) if x.get("kind") == "CXXMemberCallExpr" and callee_info(x)["name"] in ("push_back", "emplace_back")
+                  and "Rectangle" in qt(callee_info(x)["obj"])]
+        decided = None
+        for x in pushes:
+            for gc, val, ast, _b in (ctx.guards(f, x) or []):
+                ge = expand_locals(ctx, f, gc)
+                t = pretty(ge)
+                if "placedHeight" not in t and "cellHeight" not in t:
+                    continue
+                if ge[0] == "bin" and ge[1] in ("!=", "==") and {ge[2][0], ge[3][0]} <= {"call", "var", "field", "index"} and "/" not in t:
+                    if decided is None:
+                        decided = ("ok", x, t)
+                else:
+                    decided = ("bad", x, t)
+        if decided is None:
+            rep.unknown("SH", f.decl, f, "multi-row classification", "no height test guards the obstacle list")
+        elif decided[0] == "ok":
+            rep.holds("SH", decided[1], f, "cells are ignored (and turned into obstacles) exactly when placedHeight != rowHeight (%s)" % decided[2][:50])
+        else:
+            rep.violation("SH", decided[1], f, "multi-row cells classified by `%s`" % decided[2][:70],
+                          "the legalizer treats a cell as single-row only when its height equals the row height; any other test (e.g. a truncating "
+                          "division) lets a taller cell into the row lists", key="%s|height classification" % f.short)
     # ---- QF / SO ----
     builders = list(prog.func(CQ + "DetailedPlacement::fromIspdCircuit"))
     check_frame(ctx, rep, "QF", builders, "the row lists would be built for the wrong footprint and placeDetailed rejects or corrupts a legal placement")
